@@ -1,4 +1,4 @@
-(* C15 parallel_eq_single: the hypotheses texts_ok and macro_local are necessary. *)
+(* C15 parallel_eq_single: witnesses for its hypotheses. *)
 From CV Require Import Base.Bytes Base.Glob Supp.Defs Supp.ExecDefs Supp.ExecProofs Supp.ThreadProofs.
 Local Open Scope N_scope.
 
@@ -14,21 +14,31 @@ Definition wq_file : finput :=
   mkF F_A [] [(F_A, 4%Z)] [(mkEmsg 0 S_NULLP F_A 4 [] [], T_SAME); (mkEmsg 0 S_ZERODIV F_A 4 [] [], T_SAME)].
 Definition wq_cfg : config := mkC 1 true false [].
 
-(* -j1 consults the suppression for the second finding (before the duplicate test) and does
-   not report it as unmatched; a worker consults only local suppressions, drops the second
-   finding as a duplicate, and the parent never sees it: the suppression is reported unmatched *)
-Theorem texts_ok_necessary_refuted :
+(* before fix 243c78e (/repo) -j1 consulted the suppression for the second finding (before the
+   duplicate test) while a worker dropped the duplicate without asking the global suppressions:
+   the parallel executors reported the suppression as unmatched.  With the fix all three agree. *)
+Theorem former_texts_witness_agrees :
   exists o1 o2 o3,
     whole_run pm_eq None wq_cfg [wq_supp] [] [wq_file] [] = Some o1
     /\ whole_run pm_eq (Some EThread) wq_cfg [wq_supp] [] [wq_file] [] = Some o2
     /\ whole_run pm_eq (Some EProcess) wq_cfg [wq_supp] [] [wq_file] [] = Some o3
-    /\ o_unmatched o1 = [] /\ length (o_unmatched o2) = 1%nat /\ length (o_unmatched o3) = 1%nat
-    /\ map snd (o_reported o1) = map snd (o_reported o2)
-    /\ uniq [wq_supp] = true /\ Forall macro_local [wq_supp].
+    /\ o_unmatched o1 = [] /\ o_unmatched o2 = [] /\ o_unmatched o3 = []
+    /\ map snd (o_reported o1) = map snd (o_reported o2) /\ map snd (o_reported o1) = map snd (o_reported o3)
+    /\ o_status o1 = o_status o2 /\ o_status o1 = o_status o3.
 Proof.
   do 3 eexists. split; [vm_compute; reflexivity|]. split; [vm_compute; reflexivity|]. split; [vm_compute; reflexivity|].
-  repeat split; try reflexivity. constructor; [intros H; discriminate|constructor].
+  repeat split; reflexivity.
 Qed.
+
+(* what is left of the hypothesis: a finding without any rendered text (not producible: the output
+   templates are never empty) is dropped by a worker before the global suppressions see it *)
+Definition we_file : finput := mkF F_A [] [(F_A, 4%Z)] [(mkEmsg 0 S_ZERODIV F_A 4 [] [], [])].
+Theorem texts_nonempty_necessary_refuted :
+  exists o1 o2,
+    whole_run pm_eq None wq_cfg [wq_supp] [] [we_file] [] = Some o1
+    /\ whole_run pm_eq (Some EProcess) wq_cfg [wq_supp] [] [we_file] [] = Some o2
+    /\ o_unmatched o1 = [] /\ length (o_unmatched o2) = 1%nat.
+Proof. do 2 eexists. split; [vm_compute; reflexivity|]. split; [vm_compute; reflexivity|]. split; reflexivity. Qed.
 
 (* a macro suppression that is not file-local (not producible by the front ends: macro
    suppressions only come from inline comments, which carry their file): -j1 hides the
@@ -51,12 +61,10 @@ Lemma eq_single_premises_inhabited :
                     /\ whole_run pm_eq (Some EThread) wq_cfg [wq_supp] [] [wi_file] [] = Some o2
                     /\ whole_run pm_eq (Some EProcess) wq_cfg [wq_supp] [] [wi_file] [] = Some o3)
   /\ uniq [wq_supp] = true /\ Forall (inline_present [wq_supp]) [wi_file]
-  /\ Forall (fun x => texts_ok (f_msgs x)) [wi_file] /\ Forall macro_local [wq_supp].
+  /\ Forall (fun x => texts_nonempty (f_msgs x)) [wi_file] /\ Forall macro_local [wq_supp].
 Proof.
   split; [do 3 eexists; split; [vm_compute; reflexivity|split; vm_compute; reflexivity]|].
   split; [reflexivity|]. split; [repeat constructor|]. split.
-  - constructor; [|constructor]. split.
-    + intros m [<-|[]]. reflexivity.
-    + intros e1 t1 e2 t2 [H1|[]] [H2|[]] _. congruence.
+  - constructor; [|constructor]. intros m [<-|[]]. reflexivity.
   - constructor; [intros H; discriminate|constructor].
 Qed.
